@@ -23,7 +23,8 @@ from ..ref import dense, gls, implicit
 ID = 'C08'
 LEVEL = 'exploration'
 DECIDING = ['tap:least_squares', 'tap:total_least_squares', 'stationarity_judged', 'sensitivities_judged', 'refit_experiments_judged', 'tls_limit_judged', 'fit_lin_judged',
-            'stored_state_monitored', 'alias_cases_judged', 'spectator_parameters_judged', 'arguments_monitored', 'histories_judged', 'scale_pairs_judged', 'options_judged', 'boundary_cases_judged']
+            'stored_state_monitored', 'alias_cases_judged', 'spectator_parameters_judged', 'arguments_monitored', 'histories_judged', 'scale_pairs_judged', 'options_judged', 'boundary_cases_judged', 'result_interfaces_judged', 'covariance_keyword_judged', 'rejections_judged', 'degenerate_cases_judged',
+            'functions_outside_autograd_judged_with_num_grad']
 RULE = ('cases: models a exp(-b x), c exp(-b x), a exp(-b x) + c, a cosh(b (x - c)), (a + b x)/(1 + c x), two exponentials, two models with '
         'two-dimensional x and a combined fit sharing a parameter; 1-4 parameters, k+1..k+6 points, relative errors 1e-3..3e-2, each point on its '
         'own ensemble or all on a shared one (AR noise, common mode), least_squares uncorrelated / estimated correlation / supplied factor, with '
@@ -83,7 +84,7 @@ def install_judgement_counters(ctx):
     def family(mech):
         m = re.sub(r'@[a-z-]+', '', mech)
         m = re.sub(r'^(history):\d+', r'\1', m)
-        m = re.sub(r'^(alias|representation|options|boundary|metamorphic):[A-Za-z0-9=.\-]+(?=:|$)', r'\1', m)
+        m = re.sub(r'^(alias|representation|options|boundary|metamorphic|degenerate):[A-Za-z0-9=.\-]+(?=:|$)', r'\1', m)
         m = re.sub(r'^scale:(unit|scaled|small-parameters:[A-Za-z-]+|large-parameters:[A-Za-z_-]+)', 'scale', m)
         return m
     c_close, c_equal, c_require = ctx.close, ctx.equal, ctx.require
@@ -146,9 +147,10 @@ def teardown(ctx):
 
 
 def plan(tier):
-    m = 1 if tier == 'quick' else 20
-    return [('ls', 220 * m), ('tls', 80 * m), ('tls_limit', 60 * m), ('fit_lin', 60 * m), ('alias', 72 * m), ('history', 54 * m), ('scale', 60 * m),
-            ('options', 170 * m), ('boundary', 110 * m), ('spectator', 54 * m)]
+    m = 1 if tier == 'quick' else 14
+    return [('ls', 180 * m), ('tls', 80 * m), ('tls_limit', 60 * m), ('fit_lin', 60 * m), ('alias', 72 * m), ('history', 54 * m), ('scale', 60 * m),
+            ('options', 170 * m), ('boundary', 110 * m), ('spectator', 54 * m),
+            ('interface', 80 * m), ('rejection', 70 * m), ('degenerate', 75 * m)]
 
 
 # ------------------------------------------------------------------------------------------
@@ -1019,6 +1021,13 @@ def ls_run(a):
         raise
 
 
+def finite_result(ctx, res, mech, what):
+    """A fit result with a non-finite central value or fluctuation is a violation by itself (and cannot be analysed further)."""
+    ok = all(np.isfinite(float(v.value)) and all(np.all(np.isfinite(d_)) for d_ in v.deltas.values()) for v in res.fit_parameters)
+    ctx.require(ok, mech + ':non-finite-result', {'what': what, 'values': [float(v.value) for v in res.fit_parameters]})
+    return ok
+
+
 def hard_ls(ctx, P, mech, what, perturb=False, cond_ref=None, args=None):
     """Fit (with the stored-state monitors) and judge views (i) and (ii) of a least_squares problem."""
     ys, spec, k, n = P['ys'], P['spec'], P['k'], P['n']
@@ -1028,6 +1037,8 @@ def hard_ls(ctx, P, mech, what, perturb=False, cond_ref=None, args=None):
     res = guarded(ctx, list(ys) + [v for _, _, v in spec], mech, perturb, lambda: ls_run(args), args=args)
     if res is None:
         ctx.count('not_converged:' + P['method'])
+        return None
+    if not finite_result(ctx, res, mech, what):
         return None
     pv = np.array([float(p.value) for p in res.fit_parameters])
     snaps = [snap(v) for v in ys]
@@ -1136,6 +1147,8 @@ def hard_tls(ctx, P, mech, what, perturb=False, cond_ref=None, args=None):
     res = guarded(ctx, xflat + list(P['ys']), mech, perturb, lambda: tls_run(args), args=args)
     if res is None:
         ctx.count('not_converged:ODR')
+        return None
+    if not finite_result(ctx, res, mech, what):
         return None
     beta = np.array([float(p.value) for p in res.fit_parameters])
     xplus = np.asarray(res.xplus, dtype=float).reshape(xv.shape)
@@ -1465,6 +1478,328 @@ def run_boundary(ctx, idx, rng):
 
 
 
+# ------------------------------------------------------------------------------------------
+# third hardening pass: result interface and printing, the `covariance` keyword, functions outside autograd.numpy, rejections,
+# degenerate values, copies
+def star_args(M):
+    """The model written as f(p, x) = g(x, *p) with a fixed number of positional parameters: probing it with too few / too many
+    parameters raises TypeError (the other branch of the library's count of the parameters)."""
+    k = M['k']
+    src = 'lambda x, %s: body([%s], x)' % (', '.join('a%d' % i for i in range(k)), ', '.join('a%d' % i for i in range(k)))
+    g = eval(src, {'body': M['lib']})
+    return dict(M, lib=lambda p, x: g(x, *p))
+
+
+def variance_at_window_zero(o):
+    sn = snap(o)
+    tot, ens = 0.0, {}
+    for n, (idl, d, _) in sn['chains'].items():
+        e = n.split('|')[0]
+        a_, b_ = ens.get(e, (0.0, 0))
+        ens[e] = (a_ + float(np.sum(np.asarray(d) ** 2)), b_ + len(idl))
+    for a_, b_ in ens.values():
+        tot += a_ / (b_ * (b_ - 1.0))
+    for n, (cov, g) in sn['cov'].items():
+        tot += float(np.asarray(g) @ np.atleast_2d(cov) @ np.asarray(g))
+    return tot
+
+
+def judge_interface(ctx, res, k, what, tls):
+    import re
+    ctx.equal(len(res), k, 'Fit_result:len', what)
+    ctx.require(all(res[i] is res.fit_parameters[i] for i in range(k)) and [id(v) for v in res] == [id(v) for v in res.fit_parameters], 'Fit_result:indexing', what)
+    for v in res.fit_parameters:
+        v._dvalue = -1.0
+    res.gamma_method(S=0)
+    for i, v in enumerate(res.fit_parameters):
+        ctx.close(v.dvalue, np.sqrt(variance_at_window_zero(v)), 'Fit_result:gamma_method', '%s p[%d]' % (what, i), rtol=1e-10, atol=1e-300)
+    text = str(res)
+    lines = text.splitlines()
+
+    def printed(label):
+        m = [ln for ln in lines if ln.startswith(label)]
+        return float(m[0].split('=')[1]) if len(m) == 1 else None
+    if tls:
+        got = printed('residual variance')
+        ctx.require(got is not None and abs(got - float(res.residual_variance)) <= 0.51e-6 + 1e-12 * abs(got), 'Fit_result:str:residual_variance', {'printed': got, 'attribute': float(res.residual_variance)})
+    elif int(res.dof) > 0:
+        got = printed('χ²/d.o.f.')
+        ctx.require(got is not None and abs(got - float(res.chisquare_by_dof)) <= 0.51e-6 + 1e-12 * abs(got), 'Fit_result:str:chisquare_by_dof', {'printed': got, 'attribute': float(res.chisquare_by_dof)})
+    if int(res.dof) > 0:
+        got = printed('p-value')
+        ctx.require(got is not None and abs(got - float(res.p_value)) <= 0.51e-4, 'Fit_result:str:p_value', {'printed': got, 'attribute': float(res.p_value)})
+    if hasattr(res, 'chisquare_by_expected_chisquare'):
+        got = printed('χ²/χ²exp')
+        ctx.require(got is not None and abs(got - float(res.chisquare_by_expected_chisquare)) <= 0.51e-6 + 1e-12 * abs(got), 'Fit_result:str:chisquare_by_expected_chisquare',
+                    {'printed': got, 'attribute': float(res.chisquare_by_expected_chisquare)})
+    at = lines.index('Fit parameters:') if 'Fit parameters:' in lines else None
+    ok = at is not None and len(lines) - at - 1 == k
+    if ok:
+        for i in range(k):
+            m = re.match(r'^(\d+)\t\s*(\S+)', lines[at + 1 + i])
+            ok &= bool(m) and int(m.group(1)) == i
+            if ok:
+                v = float(m.group(2).split('(')[0])
+                ok &= abs(v - float(res[i].value)) <= max(2.0 * float(res[i].dvalue), 1e-12 * abs(v))
+    ctx.require(ok, 'Fit_result:str:parameter-lines', text)
+    rp = repr(res)
+    ctx.require(all(('%s: ' % key) in rp for key in (('odr_chisquare', 'residual_variance', 'xplus') if tls else ('chisquare', 'chisquare_by_dof')) + ('dof', 'p_value', 'fit_parameters', 'method')),
+                'Fit_result:repr', rp[:400])
+    ctx.count('result_interfaces_judged')
+
+
+def run_interface(ctx, idx, rng):
+    """Fit_result as a sequence, its gamma_method, the numbers in str() / repr(); models written as g(x, *p); for total least squares the
+    `covariance` keyword of expected_chisquare (the same matrix explicitly, twice the matrix, minus the matrix)."""
+    tls = idx % 2 == 1
+    if tls:
+        name = ['exp2', 'expc', 'cosh', 'xy', 'ratxy'][(idx // 2) % 5]
+        P = tls_data(rng, build_tls(ctx, rng, name))
+        if (idx // 2) % 2 == 0:
+            P['M'] = star_args(P['M'])
+        P['extra_kw'] = {'expected_chisquare': True, 'silent': bool(idx % 4 == 1)}
+        try:
+            out = hard_tls(ctx, P, 'interface', 'interface tls %s' % name)
+        except TypeError as e:
+            ctx.ev()
+            ctx.violation('interface:function-with-positional-parameters-refused', {'message': str(e)[:200], 'fit': 'total_least_squares'})
+            return
+        if out is None:
+            raise Skip()
+        res = out['res']
+        judge_interface(ctx, res, P['k'], 'tls ' + name, True)
+        # `covariance` keyword: the matrix the library would estimate itself, handed over explicitly / doubled / with the opposite sign
+        xflat = [o_ for row in P['xs'] for o_ in row]
+        cov = PE.covariance(np.concatenate((np.array(P['ys'], dtype=object), np.array(xflat, dtype=object))))
+        base = float(res.chisquare_by_expected_chisquare)
+        for fac, exp, label in ((1.0, base, 'same-matrix'), (2.0, base / 2.0, 'doubled-matrix'), (-1.0, base, 'negated-matrix')):
+            Q = dict(P, extra_kw={'expected_chisquare': True, 'covariance': fac * cov})
+            r2 = tls_run(tls_args(Q))
+            if r2 is None:
+                continue
+            ctx.close(r2.chisquare_by_expected_chisquare, exp, 'tls:expected-chisquare:covariance-keyword:' + label, name, rtol=1e-9)
+            ctx.close([float(v.value) for v in r2.fit_parameters], [float(v.value) for v in res.fit_parameters], 'tls:expected-chisquare:covariance-keyword:changes-fit', name, rtol=1e-12)
+            ctx.count('covariance_keyword_judged')
+    else:
+        name = ['exp2', 'expc', 'cosh', 'rat', 'xy', 'ratxy'][(idx // 2) % 6]
+        P = build_ls(ctx, rng, name, weights=['diag', 'estimated', 'supplied'][(idx // 4) % 3], priors=['none', 'obs'][(idx // 12) % 2])
+        if (idx // 2) % 2 == 0:
+            P['M'] = star_args(P['M'])
+        if P['weights'] == 'diag' and not P['spec']:
+            P['extra_kw'] = {'expected_chisquare': True}
+        try:
+            out = hard_ls(ctx, P, 'interface', 'interface ls %s' % name)
+        except TypeError as e:
+            ctx.ev()
+            ctx.violation('interface:function-with-positional-parameters-refused', {'message': str(e)[:200], 'fit': 'least_squares'})
+            return
+        if out is None:
+            raise Skip()
+        judge_interface(ctx, out['res'], P['k'], 'ls ' + name, False)
+    ctx.cell('interface', 'tls' if tls else 'ls', name)
+    if out['nontriv'] and P['k'] >= 2:
+        ctx.nontrivial.add(digest([obs_digest(o_) for o_ in P['ys']], name, tls, 'interface'))
+
+
+def bessel_model():
+    """a K0(b x): scipy.special is not part of autograd.numpy - automatic differentiation is refused (documented), num_grad works."""
+    import scipy.special as sp
+    return dict(k=2, dim=1, lib=lambda p, x: p[0] * sp.k0(p[1] * x), ref=lambda p, x: p[0] * sp.kv(0, p[1] * x),
+                ptrue=lambda rng: [float(rng.uniform(1, 3)), float(rng.uniform(0.3, 0.9))], x=lambda rng, n: np.sort(rng.uniform(0.4, 3.0, n)))
+
+
+def expect_rejection(ctx, row, exc_types, call, inputs, message=None):
+    before = [analysis_digest(v) for v in inputs]
+    try:
+        out = call()
+    except exc_types as e:
+        ctx.require(message is None or message in str(e), 'rejection:%s:other-message' % row, {'message': str(e)[:200], 'expected': message})
+    except Exception as e:
+        ctx.ev()
+        ctx.violation('rejection:%s:other-exception' % row, {'raised': type(e).__name__, 'message': str(e)[:200]})
+    else:
+        ctx.ev()
+        ctx.violation('rejection:%s:accepted' % row, {'returned': type(out).__name__})
+    ctx.require(before == [analysis_digest(v) for v in inputs], 'rejection:%s:inputs-changed' % row, None)
+    ctx.count('rejections_judged')
+    ctx.count('judged:rejection:' + row)
+
+
+def run_rejection(ctx, idx, rng):
+    """Functions outside autograd.numpy (refused with the documented message by automatic differentiation, fitted and judged with
+    num_grad=True) and the rejections of total_least_squares, each next to its valid twin."""
+    rows = ['ls-function-outside-autograd', 'tls-function-outside-autograd', 'tls-func-not-callable', 'tls-x-without-error', 'tls-y-without-error',
+            'tls-initial-guess-wrong-length', 'tls-function-not-differentiable-by-autograd']
+    row = rows[idx % len(rows)]
+    pe = PE
+    if row == 'tls-function-not-differentiable-by-autograd':
+        # float(p[0]) passes the count of the parameters and the minimiser but cannot be traced: automatic differentiation must refuse with
+        # the documented message, numerical differentiation fits (valid twin, judged)
+        MODELS['lin-float'] = dict(k=2, dim=1, lib=lambda p, x: float(p[0]) * x + p[1], ref=lambda p, x: p[0] * x + p[1],
+                                   ptrue=lambda rng_: [float(rng_.uniform(0.5, 2)), float(rng_.uniform(-1, 1))], x=lambda rng_, n: np.sort(rng_.uniform(0.5, 5.0, n)))
+        try:
+            P = tls_data(rng, build_tls(ctx, rng, 'lin-float'))
+            P['num_grad'] = True
+            out = hard_tls(ctx, P, 'rejection:valid-twin', 'float(p[0]) x + p[1] with num_grad')
+            if out is not None:
+                a_ = tls_args(dict(P, num_grad=False))
+                expect_rejection(ctx, row, (Exception,), lambda: pe.fits.total_least_squares(a_[0], a_[1], a_[2], **a_[3]),
+                                 [o_ for r_ in P['xs'] for o_ in r_] + list(P['ys']), 'It is required to use autograd.numpy')
+                ctx.count('functions_outside_autograd_judged_with_num_grad')
+        finally:
+            MODELS.pop('lin-float', None)
+    elif row.endswith('outside-autograd'):
+        MODELS['bessel'] = bessel_model()
+        try:
+            tls = row.startswith('tls')
+            if tls:
+                # total_least_squares counts the parameters by calling the function on the abscissa observables: a function from
+                # scipy.special cannot be evaluated there for any number of parameters - refused as 'not valid', with or without num_grad
+                P = tls_data(rng, build_tls(ctx, rng, 'bessel'))
+                P['num_grad'] = bool((idx // 6) % 2)
+                a_ = tls_args(P)
+                expect_rejection(ctx, row, (RuntimeError,), lambda: PE.fits.total_least_squares(a_[0], a_[1], a_[2], **a_[3]),
+                                 [o_ for r_ in P['xs'] for o_ in r_] + list(P['ys']), 'Fit function is not valid')
+                out = None
+            else:
+                P = build_ls(ctx, rng, 'bessel', weights=['diag', 'estimated'][(idx // 6) % 2])
+                P['num_grad'] = True
+                out = hard_ls(ctx, P, 'rejection:valid-twin', 'a K0(b x) with num_grad, least squares')
+                Q = dict(P, num_grad=False)
+                if out is not None:
+                    a_ = ls_args(Q)
+                    expect_rejection(ctx, row, (Exception,), lambda: PE.fits.least_squares(a_[0], a_[1], a_[2], priors=a_[3], **a_[4]), list(P['ys']),
+                                     'It is required to use autograd.numpy')
+        finally:
+            MODELS.pop('bessel', None)
+        if out is not None:
+            ctx.count('functions_outside_autograd_judged_with_num_grad')
+    else:
+        name = ['exp2', 'xy', 'cosh'][(idx // len(rows)) % 3]
+        P = tls_data(rng, build_tls(ctx, rng, name))
+        out = hard_tls(ctx, P, 'rejection:valid-twin', 'valid twin of ' + row)
+        if out is None:
+            raise Skip()
+        xarg, yarg, f, kw = tls_args(P)
+        inputs = [o_ for r_ in P['xs'] for o_ in r_] + list(P['ys'])
+
+        def fresh(v):
+            return pe.Obs([v.deltas[n] + v.r_values[n] for n in v.names], list(v.names), idl=[v.idl[n] for n in v.names])
+        if row == 'tls-func-not-callable':
+            expect_rejection(ctx, row, (TypeError,), lambda: pe.fits.total_least_squares(xarg, yarg, 'f', **kw), inputs, 'func has to be a function')
+        elif row == 'tls-x-without-error':
+            x2 = [fresh(xarg[0])] + list(xarg[1:]) if P['dim'] == 1 else [[fresh(xarg[0][0])] + list(xarg[0][1:])] + [list(r_) for r_ in xarg[1:]]
+            expect_rejection(ctx, row, (Exception,), lambda: pe.fits.total_least_squares(x2, yarg, f, **kw), inputs, 'No x errors available')
+        elif row == 'tls-y-without-error':
+            y2 = list(yarg[:-1]) + [fresh(yarg[-1])]
+            expect_rejection(ctx, row, (Exception,), lambda: pe.fits.total_least_squares(xarg, y2, f, **kw), inputs, 'No y errors available')
+        else:
+            kw2 = dict(kw, initial_guess=list(kw['initial_guess']) + [1.0] if idx % 2 else list(kw['initial_guess'])[:-1])
+            expect_rejection(ctx, row, (Exception,), lambda: pe.fits.total_least_squares(xarg, yarg, f, **kw2), inputs, 'Initial guess does not have the correct length')
+    ctx.cell('rejection', row)
+
+
+def run_degenerate(ctx, idx, rng):
+    """Checklist items 16 / 17: the first ordinate / abscissa exactly 0.0 with non-zero fluctuations, falsy but valid options, and a copy
+    of a data point (equal for the library's ==, another object, optionally shifted by 1e-12) next to the original."""
+    variant = ['ls-first-y-exactly-zero', 'tls-first-x-exactly-zero', 'tls-first-y-exactly-zero', 'ls-copy-next-to-original', 'ls-falsy-options'][idx % 5]
+    S_ = None
+    if variant == 'ls-first-y-exactly-zero':
+        # a e^(-b x) + c with c chosen such that the model vanishes at the first point
+        P = build_ls(ctx, rng, 'expc', method=['Levenberg-Marquardt', 'migrad'][(idx // 5) % 2], weights=['diag', 'estimated', 'supplied'][(idx // 10) % 3])
+        # rebuild the data around the shifted constant
+        x = P['x']
+        pt = P['ptrue'].copy()
+        pt[2] = -pt[0] * np.exp(-pt[1] * x[0])
+        shift = pt[2] - P['ptrue'][2]
+        S_ = P['S']
+        new = []
+        for v in P['ys']:
+            w = v + shift
+            w.gamma_method(**S_[id(v)])
+            S_[id(w)] = S_[id(v)]
+            new.append(w)
+        z = new[0] - new[0].value
+        z.gamma_method(**S_[id(new[0])])
+        S_[id(z)] = S_[id(new[0])]
+        new[0] = z
+        P['ys'], P['ptrue'], P['guess'] = new, pt, pt * (1 + 0.02 * rng.normal(size=3))
+        out = hard_ls(ctx, P, 'degenerate:' + variant, variant)
+        first = P['ys'][0]
+    elif variant.startswith('tls'):
+        name = 'expc' if variant == 'tls-first-y-exactly-zero' else ['exp2', 'expc', 'xy'][(idx // 5) % 3]
+        P = build_tls(ctx, rng, name)
+        if variant == 'tls-first-x-exactly-zero':
+            if P['dim'] == 1:
+                P['xt'][0] = 0.0
+            else:
+                P['xt'][0][0] = 0.0
+        tls_data(rng, P)
+        S_ = P['S']
+        if variant == 'tls-first-x-exactly-zero':
+            v = P['xs'][0][0]
+        else:
+            v = P['ys'][0]
+        z = v - v.value
+        z.gamma_method(**S_[id(v)])
+        S_[id(z)] = S_[id(v)]
+        if variant == 'tls-first-x-exactly-zero':
+            P['xs'][0][0] = z
+        else:
+            if name != 'expc':
+                raise Skip()
+            # move all ordinates so that the model vanishes at the first point (c = -a e^(-b x0))
+            pt = P['ptrue'].copy()
+            pt[2] = -pt[0] * np.exp(-pt[1] * np.atleast_2d(P['xt'])[0][0])
+            shift = pt[2] - P['ptrue'][2]
+            new = []
+            for w0 in P['ys']:
+                w = w0 + shift
+                w.gamma_method(**S_[id(w0)])
+                S_[id(w)] = S_[id(w0)]
+                new.append(w)
+            z = new[0] - new[0].value
+            z.gamma_method(**S_[id(new[0])])
+            S_[id(z)] = S_[id(new[0])]
+            new[0] = z
+            P['ys'], P['ptrue'], P['guess'] = new, pt, pt * (1 + 0.02 * rng.normal(size=3))
+        out = hard_tls(ctx, P, 'degenerate:' + variant, '%s %s' % (variant, name))
+        first = z
+    elif variant == 'ls-copy-next-to-original':
+        name = ['exp2', 'expc', 'cosh', 'xy'][(idx // 5) % 4]
+        P = build_ls(ctx, rng, name, weights=['diag', 'supplied'][(idx // 20) % 2], near_duplicate=True)
+        ys = P['ys']
+        dup = [(i, j) for i in range(len(ys)) for j in range(i + 1, len(ys)) if ys[i] is ys[j]]
+        if not dup:
+            raise Skip()
+        i, j = dup[0]
+        v = ys[i]
+        c = PE.Obs([v.deltas[n] + v.r_values[n] + ((idx // 10) % 2) * 1e-12 * abs(v.value) for n in v.names], list(v.names), idl=[v.idl[n] for n in v.names])
+        c.tag = 'copy'
+        c.gamma_method(**P['S'][id(v)])
+        P['S'][id(c)] = P['S'][id(v)]
+        ys[j] = c
+        out = hard_ls(ctx, P, 'degenerate:' + variant, '%s %s' % (variant, name))
+        first = c
+    else:
+        name = ['exp2', 'cosh', 'rat'][(idx // 5) % 3]
+        P = build_ls(ctx, rng, name, weights=['diag', 'estimated'][(idx // 15) % 2])
+        P['extra_kw'] = dict(correlated_fit=(P['weights'] != 'diag'), num_grad=False, expected_chisquare=False, resplot=False, qqplot=False, silent=0)
+        out = hard_ls(ctx, P, 'degenerate:' + variant, '%s %s' % (variant, name))
+        first = P['ys'][0]
+    if out is None:
+        raise Skip()
+    if 'exactly-zero' in variant:
+        ctx.require(float(first.value) == 0.0 and float(first.dvalue) > 0, 'degenerate:harness-zero-not-exact', None)
+        ctx.require(all(np.isfinite(float(v.value)) and all(np.all(np.isfinite(d_)) for d_ in v.deltas.values()) and all(np.isfinite(float(r_)) for r_ in v.r_values.values())
+                        for v in out['res'].fit_parameters), 'degenerate:zero-central-value:non-finite-result', variant)
+    ctx.cell('degenerate', variant)
+    ctx.count('degenerate_cases_judged')
+    if out['nontriv'] and P['k'] >= 2:
+        ctx.nontrivial.add(digest([obs_digest(o_) for o_ in P['ys']], variant))
+
+
+
 def run_fit_lin(ctx, idx, rng):
     """fit_lin dispatches on the type of x: numbers -> least_squares, observables -> total_least_squares (same results as the
     direct calls with the model n + m x, which the other kinds judge); a mixture is refused."""
@@ -1530,7 +1865,7 @@ def run_case(ctx, kind, idx, rng):
                 raise Skip() from None
             raise
     hard = {'alias': run_alias, 'history': run_history, 'scale': run_scale, 'options': run_options, 'boundary': run_boundary,
-            'spectator': lambda c_, i_, r_: run_alias(c_, 4 * i_ + 3, r_)}
+            'spectator': lambda c_, i_, r_: run_alias(c_, 4 * i_ + 3, r_), 'interface': run_interface, 'rejection': run_rejection, 'degenerate': run_degenerate}
     if kind in hard:
         return hard[kind](ctx, idx, rng)
     if kind == 'ls':
